@@ -182,11 +182,17 @@ void vh_run_case(Ctx &ctx)
         so.algebraics = rng.range(0, 3);
         so.nla = rng.chance(0.3);
         so.nlaDense = true;
+        so.nlaSystems = so.nla && rng.chance(0.5) ? 2 : 1; // two implicit systems: two objective functions / root finders
         so.scaledUnits = rng.chance(0.5);
         so.exprDepth = rng.range(1, 3);
         m = generateSemModel(rng, so);
     }
     IrModel ir = semToIr(m);
+    if (!corner && rng.chance(0.5)) {
+        // document order is not dependency order: the equations of two implicit systems may interleave
+        ir = permuteIr(ir, rng);
+        stat("permuted_models");
+    }
     // long names exercise the declared buffer sizes
     std::string text = writeCellml2(ir, WriteStyle());
     auto model = Parser::create(true)->parseModel(text);
